@@ -878,11 +878,13 @@ static size_t measure_stack(Task &t) {
         while (q - 4096 >= t.stack_lo && clean_pages < 16) {
             q -= 4096;
             bool any = false;
-            for (size_t i = 0; i < 4096; i += 8)
-                if (*(const uint64_t *)(q + i) != 0) {
+            for (size_t i = 0; i < 4096; i += 8) {
+                uint64_t wv = *(const uint64_t *)(q + i);
+                if (wv != 0 && wv != 0xA5A5A5A5A5A5A5A5ULL) { // (paint left by an earlier, larger painted area is not use)
                     any = true;
                     break;
                 }
+            }
             if (any) {
                 deep        = q;
                 clean_pages = 0;
@@ -969,7 +971,9 @@ void run_single(const TaskFn &fn, size_t stack_bytes) {
     if (g_aborted) return;
     Task &t = g_tasks[0];
     memset(&t.vc, 0, sizeof t.vc);
-    size_t paint = stack_bytes > (size_t(1) << 20) ? stack_bytes : std::min(stack_bytes, g_single_paint);
+    // only the top of a large stack is painted; below it pages are zero (fresh mapping, or given back by
+    // measure_stack after a run that went deeper) and the high-water mark is found page-wise
+    size_t paint = stack_bytes > (size_t(1) << 20) ? (size_t(256) << 10) : std::min(stack_bytes, g_single_paint);
     task_prepare(t, fn, stack_bytes, paint);
     g_ntasks     = 1;
     g_slice_left = 0;
